@@ -124,6 +124,11 @@ fn check_all<G: GraphLike + PartialEq>(family: &'static str, index: u64, backend
     args.push(1_000_000);
     let mut accepted_total = 0u64;
     let mut n_checks = 0u64;
+    // on large diagrams (tens of thousands of tuples per rule) every matcher call is still made,
+    // but only a deterministic sample of the outcomes is followed up: the first 40 accepted
+    // tuples of each rule and every 16th after that are evaluated, and every 37th rejected
+    // tuple is confirmed through the checked form
+    let big = args.len() > 42;
     for (rule, ar, has_checked) in RULES {
         let mut acc = 0u64;
         let mut rej = 0u64;
@@ -146,6 +151,10 @@ fn check_all<G: GraphLike + PartialEq>(family: &'static str, index: u64, backend
                 if ok {
                     acc += 1;
                     cx.count(&format!("accept:{rule}:{cls}"), 1);
+                    if big && acc > 40 && acc % 16 != 0 {
+                        cx.count("large-diagram:accepted-not-followed-up", 1);
+                        continue;
+                    }
                     let mut h = g.clone();
                     if let Err(e) = guarded(|| apply_unchecked(rule, &mut h, a, b)) {
                         cx.violation(&format!("{rule}|panic-after-accept|{cls}"), family, index, detail("rule panicked after matcher accepted", json!(e.text())));
@@ -172,7 +181,7 @@ fn check_all<G: GraphLike + PartialEq>(family: &'static str, index: u64, backend
                     }
                 } else {
                     rej += 1;
-                    if has_checked {
+                    if has_checked && (!big || rej % 37 == 0) {
                         let mut h = g.clone();
                         match guarded(|| apply_checked(rule, &mut h, a, b)) {
                             Ok(false) => {
@@ -260,6 +269,18 @@ pub fn run() {
     par_cases("gadget-rich", n_rand, move |r, i| {
         let d = gen_gadget_rich(r, 4, PhasePool::CliffordHeavy, 0.0);
         check_desc("gadget-rich", i, r, &d);
+    });
+    par_cases("gadget-pairs", n_rand, move |r, i| {
+        let d = gen_gadget_pairs(r, PhasePool::CliffordHeavy, 0.0);
+        check_desc("gadget-pairs", i, r, &d);
+    });
+    // 66-200 spiders: ids above 64/128, argument pairs that are far apart
+    let n_long = t.pick(48usize, 2500usize);
+    par_cases("long-sparse", n_long, move |r, i| {
+        let gl = r.chance(0.6);
+        let hi = *r.pick(&[90usize, 140, 200]);
+        let d = gen_long_sparse(r, 66, hi, PhasePool::CliffordHeavy, gl, 0.0);
+        check_desc("long-sparse", i, r, &d);
     });
     c.extra("exhaustive_tiny", json!({"max_spiders": max_ns, "space": space_total, "completed": completed}));
 }
